@@ -123,14 +123,56 @@ func checkCompareCore(c *Check, w *World, tb *TB, pfx string, entry *ssa.Functio
 					}
 					fDer := di.Parent()
 					if tup, isT := dv.Type().(*types.Tuple); isT && tup.Len() >= 2 && types.Identical(tup.At(tup.Len()-1).Type(), types.Universe.Lookup("error").Type()) {
+						// the error may be tested where the derivation is called, or be handed down the chain to the
+						// comparing helper (matchCode(code, expected, err)) and tested there
+						L := -1
+						for k, lv := range h.Levels {
+							if lv.Fn == fDer {
+								L = k
+							}
+						}
+						errIn := map[*ssa.Function]ssa.Value{fDer: errV}
+						if L >= 0 {
+							cur := errV
+							for k := L; k+1 < len(h.Levels) && cur != nil; k++ {
+								var next ssa.Value
+								site := h.Levels[k].Site
+								callee := h.Levels[k+1].Fn
+								if site != nil {
+									for j, a := range site.Common().Args {
+										if a == cur && j < len(callee.Params) && !site.Common().IsInvoke() {
+											next = callee.Params[j]
+										}
+									}
+								}
+								if next != nil {
+									errIn[callee] = next
+								}
+								cur = next
+							}
+						}
 						vt2 := newVtrack()
 						vt2.atomOK = func(f *ssa.Function, at Atom) bool {
-							if f != fDer || at.Op != token.EQL || errV == nil {
+							ev := errIn[f]
+							if ev == nil || at.Op != token.EQL {
 								return false
 							}
-							return (at.X == errV && isNilConst(at.Y)) || (at.Y == errV && isNilConst(at.X))
+							return (at.X == ev && isNilConst(at.Y)) || (at.Y == ev && isNilConst(at.X))
 						}
-						c.Decide(errV != nil && vt2.fnOK(fDer), pfx+".6", fn, "derivation-succeeded", "acceptance only where the derivation returned no error", "a 'true' verdict is returned on a path where the derivation's error was not found nil: a failed derivation (empty expected string) accepts an empty code", w.InstrPos(di))
+						okErr := errV != nil
+						if okErr && L >= 0 {
+							for k := len(h.Levels) - 1; k >= L; k-- {
+								okK := vt2.fnOK(h.Levels[k].Fn)
+								if k == L {
+									okErr = okK
+								} else if okK {
+									vt2.resultCarriers(h.Levels[k-1].Fn, h.Levels[k-1].Site)
+								}
+							}
+						} else if okErr {
+							okErr = vt2.fnOK(fDer)
+						}
+						c.Decide(okErr, pfx+".6", fn, "derivation-succeeded", "acceptance only where the derivation returned no error", "a 'true' verdict is returned on a path where the derivation's error was not found nil: a failed derivation (empty expected string) accepts an empty code", w.InstrPos(di))
 					}
 				}
 			}
